@@ -86,6 +86,20 @@ def init_attrs(repo, cls):
     return out
 
 
+def ctor_attrs(repo, cls):
+    """every attribute assigned to self by any __init__ along the MRO of cls: what an object is guaranteed to have once its construction
+    has reached the point where the child is started (the child may be interrupted before it runs any further initialisation of its own)"""
+    import ast
+    from pyvc.frontend import ClassInfo
+    out = set()
+    for c in repo.mro(repo.cls(cls)):
+        if isinstance(c, ClassInfo) and '__init__' in c.methods:
+            for n in ast.walk(c.methods['__init__'].node):
+                if isinstance(n, ast.Attribute) and isinstance(n.ctx, ast.Store) and isinstance(n.value, ast.Name) and n.value.id == 'self':
+                    out.add(n.attr)
+    return out
+
+
 def process_parent(ex, env, persistent=False, cls=PW):
     """parent-side ProcessWorker that has been started"""
     I = ex.interp
